@@ -85,6 +85,14 @@ def gen(tier):
             mp = 2
         cases.append({'id': len(cases) + 1, 'mode': 'e2e', 'reqs': [], 'machs': [], 'machprocs': mp, 'maxp': rng.choice([mp, 2 * mp]), 'maxload': 1.0,
                       'events': [], 'probation_ms': 150, 'bootkills': [], 'e2e': procs})
+    # (4) failure paths of bigmachineExecutor.Run in a real session: the machine serving a chosen RPC of the executor
+    # (compile, combiner commit, run) dies at that call; however the task ends, its procs must come back
+    fp = [('Worker.CommitCombiner', 1), ('Worker.CommitCombiner', 2), ('Worker.Compile', 1), ('Worker.Compile', 2), ('Worker.Run', 1), ('Worker.Run', 3)]
+    if tier != 'quick':
+        fp = [(c_, n_) for c_ in ('Worker.CommitCombiner', 'Worker.Compile', 'Worker.Run', 'Worker.Stat') for n_ in range(1, 9)]
+    for call, nth in fp:
+        cases.append({'id': len(cases) + 1, 'mode': 'e2e', 'reqs': [], 'machs': [], 'machprocs': 2, 'maxp': 4, 'maxload': 1.0,
+                      'events': [], 'probation_ms': 150, 'bootkills': [], 'e2e': [4], 'machcomb': True, 'killcall': call, 'killn': nth})
     return cases
 
 
@@ -213,7 +221,7 @@ def run(tier, replay=None):
         chk.cov['live_sessions'] = len(lrecs)
         chk.cov['real_session_runs'] = sum(1 for c in cases if c['mode'] == 'e2e')
         for rr in lrecs:
-            if rr.get('runerr'):
+            if rr.get('runerr') and not rr.get('mayfail'):
                 raise Inconclusive('the real-session run of case %s failed: %s' % (rr['id'], rr['runerr'][:300]))
         chk.cov['live_events'] = sum(len(rr['events']) for rr in lrecs)
         if not replay:
